@@ -2196,3 +2196,12 @@ M("c17-vector-id-skips-keys", "C17", "prometheus/reporter.go",
 M("c20-bound-table-reused", "C20", "stats.go",
   "			hbuckets: make([]histogramBucket, 0, len(pairs)),", "			hbuckets: scratchBuckets[:0],", expect="O6 bound-table-private",
   more=[("stats.go", "func newBucketStorage(", "var scratchBuckets = make([]histogramBucket, 0, 64)\n\nfunc newBucketStorage(")])
+M("c13-borrowed-tags-not-emptied", "C13", "m3/reporter.go",
+  "					extraTags.Put(borrowedTags[i][:0])", "					extraTags.Put(borrowedTags[i][:1])", expect="borrowed")
+M("c17-default-registerer-dropped", "C17", "prometheus/reporter.go",
+  "	if opts.Registerer == nil {\n		opts.Registerer = prom.DefaultRegisterer\n	} else {", "	if opts.Registerer == nil {\n	} else {", expect="O7 collaborators")
+M("c17-gatherer-typed-nil", "C17", "prometheus/reporter.go",
+  "ok && opts.Gatherer == nil {", "ok || opts.Gatherer == nil {", expect="O7 collaborators")
+M("c16-readstring-aliases-buffer", "C16", "thirdparty/github.com/apache/thrift/lib/go/thrift/compact_protocol.go",
+  "	return string(buf), NewTProtocolException(e)", "	return *(*string)(unsafe.Pointer(&buf)), NewTProtocolException(e)", expect="O8 decoded-payload-owned",
+  more=[("thirdparty/github.com/apache/thrift/lib/go/thrift/compact_protocol.go", '	"math"\n', '	"math"\n	"unsafe"\n')])
